@@ -1,6 +1,8 @@
 package main
 
 import (
+	"os"
+	"path/filepath"
 	"strings"
 
 	"golang.org/x/tools/go/ssa"
@@ -58,5 +60,40 @@ func init() {
 			"(67) while the command-line front-end offers the rule-based ones as well (107).\n" +
 			"witness: go-critic-analysis vs go-critic on a file containing `len(xs) >= 0` (sloppyLen is reported by the CLI only)."
 		c.direct = append(c.direct, &directResult{Name: "checkers/analyzer.init/protocol/registry-snapshot-includes-embedded-rules", OK: ok, Detail: detail})
+	})
+}
+
+// C08 (5) the twin commands: cmd/go-critic and cmd/gocritic are kept as byte-identical copies; as long as they are, the two
+// commands are the same program (same diagnostics, same exit status, same filters). Decided by comparing the files.
+func init() {
+	registerHook("C08", func(c *checkCtx) {
+		a, b := filepath.Join(c.e.repo, "cmd", "go-critic"), filepath.Join(c.e.repo, "cmd", "gocritic")
+		ents, err := os.ReadDir(a)
+		if err != nil {
+			c.direct = append(c.direct, &directResult{Name: "cmd/twins/readable", OK: false, Detail: err.Error()})
+			return
+		}
+		n := 0
+		for _, e := range ents {
+			if e.IsDir() || !strings.HasSuffix(e.Name(), ".go") || strings.HasSuffix(e.Name(), "_test.go") {
+				continue
+			}
+			x, err1 := os.ReadFile(filepath.Join(a, e.Name()))
+			y, err2 := os.ReadFile(filepath.Join(b, e.Name()))
+			n++
+			ok := err1 == nil && err2 == nil && string(x) == string(y)
+			c.direct = append(c.direct, &directResult{Name: "cmd/twins/" + e.Name() + "/go-critic-and-gocritic-are-the-same-program", OK: ok,
+				Detail: "cmd/go-critic/" + e.Name() + " and cmd/gocritic/" + e.Name() + " differ (or one of them is missing): the two commands are no longer the same program"})
+		}
+		ents2, _ := os.ReadDir(b)
+		for _, e := range ents2 {
+			if e.IsDir() || !strings.HasSuffix(e.Name(), ".go") || strings.HasSuffix(e.Name(), "_test.go") {
+				continue
+			}
+			if _, err := os.Stat(filepath.Join(a, e.Name())); err != nil {
+				c.direct = append(c.direct, &directResult{Name: "cmd/twins/" + e.Name() + "/go-critic-and-gocritic-are-the-same-program", OK: false, Detail: "cmd/gocritic/" + e.Name() + " has no counterpart in cmd/go-critic"})
+			}
+		}
+		c.extraEv["twin_files_compared"] = n
 	})
 }
